@@ -66,7 +66,7 @@ def _strip_comment_nodes(nodes, new_com):
     return out
 
 
-def reject_session_blocks(blocks, new_rev, new_com, story="body", author=SESSION_AUTHOR):
+def reject_session_blocks(blocks, new_rev, new_com, story="body", author=SESSION_AUTHOR, keep_ids=frozenset()):
     # a mark belongs to the session iff it is attributed to the session's author (ids may collide inside a
     # header/footer part, see F-header-ids)
     class _Sess:
@@ -77,12 +77,14 @@ def reject_session_blocks(blocks, new_rev, new_com, story="body", author=SESSION
         if "p" in b:
             p = b["p"]
             nodes = _strip_comment_nodes(p["nodes"], new_com)
-            had_session_ins = any(n["k"] == "ins" and n.get("author") == author for n in nodes)
+            # (keep_ids: marks the same author left in an earlier round — they are part of the input)
+            mine = lambda n: n.get("author") == author and n.get("id") not in keep_ids
+            had_session_ins = any(n["k"] == "ins" and mine(n) for n in nodes)
             res = []
             for n in nodes:
-                if n["k"] == "ins" and n.get("author") == author:
+                if n["k"] == "ins" and mine(n):
                     continue
-                if n["k"] == "del" and n.get("author") == author:
+                if n["k"] == "del" and mine(n):
                     res.extend({"k": "r", "run": undelete_run(r)} for r in n["runs"])
                     continue
                 res.append(n)
@@ -92,7 +94,7 @@ def reject_session_blocks(blocks, new_rev, new_com, story="body", author=SESSION
             out.append({"p": dict(p, nodes=res)})
         elif "tbl" in b:
             t = copy.copy(b["tbl"])
-            t["rows"] = [dict(row, cells=[dict(c, blocks=reject_session_blocks(c["blocks"], new_rev, new_com, story, author)) for c in row["cells"]])
+            t["rows"] = [dict(row, cells=[dict(c, blocks=reject_session_blocks(c["blocks"], new_rev, new_com, story, author, keep_ids)) for c in row["cells"]])
                          for row in t["rows"]]
             out.append({"tbl": t})
         else:
@@ -100,11 +102,11 @@ def reject_session_blocks(blocks, new_rev, new_com, story="body", author=SESSION
     return out
 
 
-def reject_session(out_doc, new_rev, new_com):
+def reject_session(out_doc, new_rev, new_com, author=SESSION_AUTHOR, keep_ids=frozenset()):
     d = dict(out_doc)
-    d["body"] = reject_session_blocks(out_doc["body"], new_rev, new_com)
-    d["headers"] = [dict(s, blocks=reject_session_blocks(s["blocks"], new_rev, new_com, f"h{i}")) for i, s in enumerate(out_doc.get("headers", []))]
-    d["footers"] = [dict(s, blocks=reject_session_blocks(s["blocks"], new_rev, new_com, f"f{i}")) for i, s in enumerate(out_doc.get("footers", []))]
+    d["body"] = reject_session_blocks(out_doc["body"], new_rev, new_com, "body", author, keep_ids)
+    d["headers"] = [dict(s, blocks=reject_session_blocks(s["blocks"], new_rev, new_com, f"h{i}", author, keep_ids)) for i, s in enumerate(out_doc.get("headers", []))]
+    d["footers"] = [dict(s, blocks=reject_session_blocks(s["blocks"], new_rev, new_com, f"f{i}", author, keep_ids)) for i, s in enumerate(out_doc.get("footers", []))]
     d["comments"] = [c for c in out_doc.get("comments", []) if c["id"] not in new_com]
     return d
 
@@ -121,10 +123,20 @@ def canon_diff(a_doc, b_doc):
     return None
 
 
-def oracle_reversible(in_doc, out_doc):
+def marks_of(doc, author):
+    """ids of the revision marks attributed to `author` (all stories)"""
+    out = set()
+    for _, p in _story_nodes(doc):
+        for n in p["nodes"]:
+            if n["k"] in ("ins", "del") and n.get("author") == author:
+                out.add(n["id"])
+    return out
+
+
+def oracle_reversible(in_doc, out_doc, author=SESSION_AUTHOR):
     """C01: rejecting the session's marks gives back the input (up to run boundaries / proofing marks)."""
-    new_rev, new_com = session_ids(in_doc, out_doc)
-    back = reject_session(out_doc, new_rev, new_com)
+    new_rev, new_com = session_ids(in_doc, out_doc, author)
+    back = reject_session(out_doc, new_rev, new_com, author, frozenset(marks_of(in_doc, author)))
     fails = []
     d = canon_diff(in_doc, back)
     if d:
@@ -157,7 +169,9 @@ def nesting_problems(doc):
                     for r in n["runs"]:
                         if any(a["k"] == "t" for a in r["ch"]):
                             probs.append(f"w:t inside w:del id={n['id']}")
-                        if any(a["k"] == "dt" and a["s"] == "" for a in r["ch"]):
+                        # (an empty text node that was in the run before is deleted along with it: only a deletion
+                        # that deletes nothing at all is a stray mark)
+                        if r["ch"] and all(a["k"] == "dt" and a["s"] == "" for a in r["ch"]):
                             probs.append(f"empty w:delText in w:del id={n['id']}")
                 elif n["k"] == "r" and any(a["k"] == "dt" for a in n["run"]["ch"]):
                     probs.append("w:delText outside a deletion")
